@@ -49,7 +49,10 @@ pub fn draw_cfg(rng: &mut Rng, only: Option<&str>) -> Cfg {
     let (n, m) = *rng.pick(&cfgs);
     let streams = 1 + rng.below(m as u64) as usize;
     let mut nprod = 1 + rng.below(3) as usize;
-    let es = entries_for(kind);
+    let mut es = entries_for(kind);
+    // an async send suspended until the consumers have drained everything and parked -- not on the two movable Uni kinds, whose suspended async send
+    // makes every other producer wait (C20-D9a/b): there "everybody else finished or parked" never comes
+    if kind.has_async_send() && kind != Kind::UniMoveAtomic && kind != Kind::UniMoveFullSync { es.push(Entry::SendAsyncGated); es.push(Entry::SendAsyncGated) }
     let mut per_prod = 1 + rng.below(4) as u32;
     let mut prefill = rng.below(m as u64 + 4) as u32;
     if n > 0 { prefill = prefill.min(n as u32) }
